@@ -17,9 +17,9 @@ package main
 //            S4 "damaged"    S1 + largest data pack deleted and index rebuilt
 //                             (repair snapshots has something to do)
 //   dry-run  backup -n (new / unchanged data, --force --tag), forget -n (4
-//            policies + explicit id, --prune twice), prune -n (6 option sets),
+//            policies + explicit id, --prune four times, two of them with a policy that forgets nothing), prune -n (6 option sets),
 //            rewrite -n (4 forms incl. --forget), repair snapshots -n
-//            (+ --forget): 21 command lines, each without and with --no-lock
+//            (+ --forget): 23 command lines, each without and with --no-lock
 //   no-lock  snapshots (+--json), ls, ls -l, find, diff, stats (2 modes), cat
 //            (config, snapshot, masterkey), dump, check, check --read-data,
 //            restore, restore --verify, copy (as --from-repo source), key
@@ -239,6 +239,9 @@ func verifC39Commands() []verifC39Cmd {
 		{"forget", "forget -n {SNAP0}", false},
 		{"forget", "forget -n --keep-last 1 --group-by  --prune", true},
 		{"forget", "forget -n {SNAP1} --prune --max-unused 0", false},
+		// a policy that forgets nothing: the prune part must still be a dry run
+		{"forget", "forget -n --keep-last 100 --prune --max-unused 0", true},
+		{"forget", "forget -n --keep-tag nosuchtag --keep-last 100 --prune", false},
 		{"prune", "prune -n", false},
 		{"prune", "prune -n --max-unused 0", true},
 		{"prune", "prune -n --max-unused unlimited", false},
